@@ -14,7 +14,7 @@ AMBIGUOUS_VALUES = ["4294967296", "0x10", "10u32", "1_0", "99999999999", "0b11",
 
 def make_cases(tier, seed):
     rnd = core.rng_for("c13", seed, tier)
-    n = 30000 if tier == "quick" else 300000
+    n = 30000 if tier == "quick" else 1000000
     feats = {k: gen.FEATURES[k] for k in ("path", "target", "nkv", "kv0", "kv1", "kv2", "msg", "trail", "lay", "pre", "post", "ref")}
     rows = list(gen.covering_rows(feats, 2, rnd, candidates=8))
     while len(rows) < n:
